@@ -555,6 +555,9 @@ def value_tree(fam: F.Family, cname: str, vals: dict):
     return (CID[cname], kids)
 
 
+release_builders = F.release_builders
+
+
 class HistoryRun:
     """Runs one history on a fresh family; collects oracle verdicts and the model case."""
 
@@ -589,6 +592,7 @@ class HistoryRun:
         self.fam.close()
         for t in self.twins.values():
             t.close()
+        release_builders()
 
     def run(self):
         fam = self.fam
@@ -1203,8 +1207,11 @@ def run(ctx: vlib.Ctx):
     LAYER.layer_part(ctx, sys.modules[__name__])
     union_part(ctx)
     union4_part(ctx)
+    release_builders()
     DOC.run_all(ctx)
+    release_builders()
     CD.codec_part(ctx)
+    release_builders()
     if ctx.tier == "thorough":
         coqchk(ctx)
     if ctx.unshown and not any(vlib.match_known(ctx.pid, f, vlib.load_known_findings()) is None for f in ctx.failures):
